@@ -83,11 +83,34 @@ def run(chk):
                 pass
             full = 4 * len(inp) + 12
             outlen = r.choice([full, full, full, r.range(1, len(inp) + 2), len(inp)])
-            pres = 12 | r.choice([0, 16, 16, 1, 3])
+            pres = 12 | r.choice([0, 16, 16, 1, 1, 3, 17])
             cursor = r.range(0, len(inp) - 1) if pres & 16 else -2
             lines.append(trans.case_line("T" if direction == "F" else "T", mode, inp, full if direction == "B" else outlen,
-                                         cursor=cursor, presence=pres))
+                                         cursor=cursor, presence=pres, typeform=safety.gen_typeform(r, len(inp)) if pres & 1 else None))
             meta.append((direction, inp, mode, outlen, pres, cursor))
+        if alphabet is None and os.path.basename(tl) in ("en-us-g2.ctb", "en-ueb-g2.ctb", "de-g2.ctb", "fr-bfu-g2.ctb", "cy-cy-g2.ctb", "hu-hu-g2.ctb"):
+            # aimed at non-monotone raw maps: an emphasis that begins and ends inside a group of characters that one rule
+            # contracts (capital first letter, so that the typeform test of the match is skipped)
+            cw = "The With Child This Which Shall Still Out And For Of Have People Would Could Braille Their Through Ought Some".split()
+            for i in range(60 if quick else 600):
+                ws = [r.choice(cw) if r.chance(0.8) else r.choice(cw).lower() for _ in range(r.range(1, 4))]
+                text = " ".join(ws)
+                inp = [ord(c) for c in text]
+                tfm = [0] * len(inp)
+                starts = [0] + [k + 1 for k, c in enumerate(text) if c == " "]
+                for _ in range(r.range(1, 2)):
+                    a = min(len(inp) - 1, r.choice(starts) + r.range(1, 2)) if r.chance(0.8) else r.range(0, len(inp) - 1)
+                    b = min(len(inp), a + r.range(1, 2))
+                    v = r.choice([1, 2, 4, 1, 8])
+                    for k in range(a, b):
+                        tfm[k] = v
+                pres = 12 | 1 | r.choice([0, 16])
+                cursor = r.range(0, len(inp) - 1) if pres & 16 else -2
+                full = 4 * len(inp) + 12
+                amode = r.choice([0, 0, 4])
+                lines.append(trans.case_line("T", amode, inp, full, cursor=cursor, presence=pres, typeform=tfm))
+                meta.append(("F", inp, amode, full, pres, cursor))
+                chk.tally("aimed_emphasis_inside_contraction")
         rs = trans.run_cases(exe, tl, lines, exact=1, env=env, timeout=400)
         # second round: backward cases on the outputs
         blines, bmeta = [], []
